@@ -3,11 +3,13 @@ import json, os, re, subprocess, sys, time, hashlib, shutil
 
 ROOT = os.path.dirname(os.path.dirname(os.path.abspath(__file__)))
 SPECS = os.path.join(ROOT, "specs")
-WORK = os.path.join(ROOT, "work")
-HARNESS = os.path.join(ROOT, "harness")
+# The overrides exist only so that seeded changes can be tried against a scratch worktree of /repo (a copy of the
+# harness whose path dependency points at the worktree) without touching /repo or the committed evidence.
+WORK = os.environ.get("VERIF_WORK") or os.path.join(ROOT, "work")
+HARNESS = os.environ.get("VERIF_HARNESS") or os.path.join(ROOT, "harness")
 VH = os.path.join(HARNESS, "target", "release", "vh")
-EVID = os.path.join(ROOT, "evidence")
-REPLAYS = os.path.join(ROOT, "replays")
+EVID = os.environ.get("VERIF_EVID") or os.path.join(ROOT, "evidence")
+REPLAYS = os.environ.get("VERIF_REPLAYS") or os.path.join(ROOT, "replays")
 TLA_JAR = "/opt/veriftools/tla/tla2tools.jar"
 TLA_CP = TLA_JAR + ":/opt/veriftools/tla/CommunityModules-deps.jar"
 
